@@ -307,6 +307,19 @@ def sameResult : Except Err (String × String) → Except Err (String × String)
   | .error a, .error b => a == b
   | _, _ => false
 
+/-! ## APD: the three bias inputs
+
+`APDCharacteristics(avalanche_gain, pixel_reset_voltage, common_voltage)`: exactly two of the three are given, the
+third follows (`avalanche bias = pixel reset voltage − common voltage`, gain ↔ bias by the SAPHIRA curve).  The
+documented limits: gain in 1..1000; the avalanche bias must be at least 1 V ("node capacitance calculation is
+inaccurate for bias voltages < 1 V" — a pair of voltages less than 1 V apart, equal or reversed is refused).  With a
+gain and one voltage the bias is `2.65 + 2.17·log2(gain) ≥ 2.65`, so only the gain's range matters. -/
+def apdSpec : Option Rat → Option Rat → Option Rat → Bool
+  | some g, some _, none => decide (1 ≤ g ∧ g ≤ 1000)
+  | some g, none, some _ => decide (1 ≤ g ∧ g ≤ 1000)
+  | none, some p, some c => decide (1 ≤ p - c)
+  | _, _, _ => false
+
 /-! ## loading one section (geometry / environment / characteristics) -/
 
 /-- constructor guard of a field of class `cls` in the table (`ff` when the field is not validated) -/
